@@ -7,28 +7,33 @@ ID = "C13"; MODEL = "life"; IMPL = "life"
 COQ_PROP = "Properties/C13.v"; COQ_DIRS = ["Common", "Life"]
 COQ_MODULE = "Life.Model"; RUN_FN = "run"
 THEOREMS = ["C13_contained", "C13_errors_exact", "C13_ok_only_if_no_uncaught_panic", "C13_globals_released",
-            "C13_others_as_if_silent"]
+            "C13_others_as_if_silent", "C13_stereotype_in_force"]
 QUICK_N = 2500; THOROUGH_N = 120000
 RULE = ("scripts as for C09 (2..4 scripted modules with handler / start / task / end programs, injected messages) with panic!() placed in "
         "handle_message, at_sim_start (initial and restarts), at_sim_end and in spawned tasks: every (module, callback kind, program, "
-        "position) of a healthy base simulation, both stereotypes (on_panic_catch true / false), one or several panicking modules, panics "
-        "after a shutdown request in the same callback; each script is simulated twice in one process, and for single-stage modules a "
-        "third time with the panics of one module replaced by 'quiet' (falls silent) to compare the other modules' logs.  "
+        "position) of a healthy base simulation, both stereotypes (on_panic_catch true / false), set_stereotyp(catch | no catch) from "
+        "callbacks and tasks -- in the very callback that panics, in an earlier event, in another program, before a restart --, one or "
+        "several panicking modules, panics after a shutdown request in the same callback; each script is simulated twice in one "
+        "process, and a third time with the panics of one module replaced by 'quiet' (falls silent) to compare the other modules' logs.  "
         "non-trivial = distinct script whose run contains a callback panic and a later event of another module")
 TRUSTED = c09.TRUSTED + [
-    "a callback panic is observed through the record the scripted callback writes just before panic!(); the error list is read from the "
-    "RuntimeError returned by Runtime::finish (PanicError / JoinError paths)",
+    "a callback panic is observed through the record the scripted callback writes just before panic!() (it carries the on_panic_catch "
+    "flag read from current().stereotyp() at that moment); set_stereotyp calls are logged by the script action that makes them; the "
+    "error list is read from the RuntimeError returned by Runtime::finish (PanicError / JoinError paths)",
     "'falls silent' (the comparison run of others_as_if_silent) is the script action quiet: request shutdown() unless a request is pending, "
     "return, and let the tasks polled in that event end without acting"]
 ASSUMPTIONS = c09.ASSUMPTIONS
 CLAIM = dict(
     text="Machine-checked (Coq 8.16, axiom-free) for the model of unwind.rs/events.rs/ctx.rs/mod.rs (Harness::exec/catch as: the rest of "
-         "the callback and the yield are skipped, the module is deactivated, a PanicError is recorded unless Stereotyp.on_panic_catch), "
+         "the callback and the yield are skipped, the module is deactivated, a PanicError is recorded unless Stereotyp.on_panic_catch as "
+         "read when the panic is caught, i.e. after the callback), "
          "for every script of 2..4 modules with panics anywhere in handle_message / at_sim_start / at_sim_end / tasks, any number of "
-         "panicking modules, both stereotypes: (1) contained: after a callback of m panicked no start-up stage and no dispatched event holds any record of m "
+         "panicking modules, both stereotypes and set_stereotyp anywhere in callbacks and tasks: (1) contained: after a callback of m panicked no start-up stage and no dispatched event holds any record of m "
          "(no handler, wake-up, task step, send) until a restart event of m, which exists only if m itself requested "
-         "shutdow_and_restart before it panicked; (2) errors_exact: the PanicError entries of the returned error are exactly the callback "
-         "panics of non-catching modules, one per panic, in the order of the panics (so Ok only if there is none); (3) globals_released: "
+         "shutdow_and_restart before it panicked; (2) errors_exact + stereotype_in_force: the PanicError entries of the returned error are "
+         "exactly the callback panics caught while the module's stereotype in force does not catch -- in force = the last set_stereotyp "
+         "of the module before the panic, in the panicking callback itself or earlier, across shutdown / restart, else the configured "
+         "one --, one per panic, in the order of the panics (so Ok only if there is none); (3) globals_released: "
          "after every start-up step and every dispatched event, panicking ones included, the module-context slot is empty and the event "
          "buffer drained, and the slot is empty after every at_sim_end; (4) others_as_if_silent: for every module m (any stereotype, any "
          "number of start-up stages), every record of every other module during start-up and event dispatch is the same as in the run where m's "
@@ -37,14 +42,15 @@ CLAIM = dict(
          "des on every invocation by differential runs (panic!() in scripted callbacks and tasks on the real runtime, set_stereotyp, "
          "RuntimeError contents, is_active samples after every event), each script simulated twice in one process (the second run must "
          "equal the first: global state stays usable) and, for callback panics, a third time in its falls-silent variant whose other "
-         "modules' logs are compared; the monitor states (1), (2), the second-simulation equality and (4) on the implementation's log.",
+         "modules' logs are compared; the monitor states (1), (2) (tracking the stereotype in force from the logged set_stereotyp calls "
+         "and checking the flag sampled at each panic against it), the second-simulation equality and (4) on the implementation's log.",
     note="Partial: unwinding itself (that catch_unwind leaves tokio's and Rust's internal state intact, lock poisoning) is not modelled, only "
          "observed through the second simulation. Panics inside spawned tasks are caught by tokio and reported as JoinErrors by at_sim_end "
          "(try_join); they do not deactivate the module (the property text says they should; the code does not) -- the claim covers callback "
          "panics; JoinError entries are only checked by the monitor (each has a panicked task). (4) was false for every multi-stage module "
          "before 1526470 (the start-up sweep ran the later stages of a module whose stage 0 panicked) and for catching multi-stage "
          "modules before 9e87d89 (module_restart went on with the later stages after a caught panic): Refuted/C13.v, "
-         "corpus/C13/multistage_panic.txt; (4) covers start-up and event dispatch: the tear-down "
+         "corpus/C13/multistage_panic.txt; a runtime that samples the stereotype before the callback is the pinned variant (c) there; (4) covers start-up and event dispatch: the tear-down "
          "records of other modules agree only up to the final time stamp (left-over wake-ups of the dead module move the end of the "
          "simulation) -- checked by the monitor, not proved. at_sim_end is called on panicked modules too.",
     technique="Coq: trace invariants over a step relation (panic => inactive, inactive => no records), error-list bookkeeping, and a "
